@@ -917,6 +917,14 @@ for _p in ("C07", "C18"):
         "OpenTelemetry layer scoped to the server-side tasks with untraced callers; a request without a trace (id 0) is not required to keep it"]
 
 
+# the retry stub re-issues requests: every attempt must carry the caller's deadline (C07) and trace context (C18)
+def retry_fixed(tier):
+    return [x for x in stubs_fixed(tier) if x["cfg"]["kind"] == "retry"]
+
+
+for _p in ("C07", "C18"):
+    PROPS[_p]["families"].append(dict(family="stubs", trace_module="Trace_Stubs", random_quick=0, random_thorough=0, fixed=retry_fixed, exports=[], tag="retry"))
+
 # ------------------------------------------------------------------ the whole stack under a real tokio runtime (System.tla / ObsSys.tla)
 SYS_CONSTS = dict(Conns="{1, 2}", Keys="{1}", Calls="{1, 2}", N=1, L=1, Mif=2, Deadlines="{2, 9}", MaxTime=3, MaxEnv=7, Phased=True, ExportSched=False)
 
